@@ -27,3 +27,23 @@ PROPS["C20"] = dict(
     assumptions=["variables have distinct names without '=' and NUL, values are valid UTF-8 (property's domain)",
                  "entries without '=' are outside the quantifier (Lemma entry_without_eq_panics records the Go panic)"],
 )
+
+PROPS["C19"] = dict(
+    harness="util", module="Cases.C19Check",
+    level_text="Theorem C19_format_spec proves, for every code-point string and every argument list, that the scanner as written in "
+               "util/module.go (pending-percent flag, positional cursor) computes Node's restricted format specification; C19_console proves one "
+               "message per call routed by method for every call history. The directive table and the console method/sink table are regenerated "
+               "from the source each run; the model is run against the implementation on '%'-rich strings",
+    level_note="Proof is about Model/Format.v. Conversions String(a), String(Number(a)), JSON.stringify(a) are oracles evaluated by goja in the "
+               "same runtime. Tie: Gen/UtilFormat.v (directive switch, console table) + differential run + spec oracle applied to the implementation's outputs.",
+    rule="80% util.format calls over strings assembled from a '%'-rich piece alphabet (every position incl. last, multi-byte and astral "
+         "characters) x 0-3 arguments from 26 JS values; 20% console histories of 1-6 calls with a recording Printer; non-trivial = at least one "
+         "'%' and one argument (format) or >= 2 calls (console); distinct by hash of the canonical case",
+    codes={"Diff1": "model js_format differs from util.format", "Diff2": "model console sinks differ from the recording printer",
+           "SpecFail1": "util.format result differs from the specification (literal kept / positional / %% / surplus)",
+           "SpecFail2": "console messages differ from format of the call's arguments or went to the wrong sink",
+           "SpecFail3": "number of delivered messages differs from the number of console calls",
+           "Implformat-threw": "util.format threw", "Implconsole-threw": "console call threw"},
+    trusted=["goja: String(), ToNumber(), JSON.stringify, conversion of JS strings to Go runes (well-formed strings only)"],
+    assumptions=["Symbols, BigInts, custom inspection, lone surrogates are outside the claim"],
+)
